@@ -142,13 +142,23 @@ def replay(pid, path):
     rp = json.load(open(path))
     w = vlib.workdir("replay_" + pid)
     out = os.path.join(w, "replay.ndjson")
-    with open(out, "w") as f:
-        for e in rp["trace"]:
-            f.write(json.dumps(e, separators=(",", ":")) + "\n")
+    meta = rp.get("meta", {})
+    reexec = False
+    if meta.get("family") == "exitwait-h" and meta.get("shape") and os.environ.get("VERIF_REPLAY_RECORDED") != "1":
+        # engine H: run the recorded schedule again on the current tree
+        summ = vlib.harness(["exitwait-replay", "--shape-str", meta["shape"], "--sched", json.dumps(meta.get("sched", [])), "--out", out])
+        reexec = summ.get("runs") == 1
+        if reexec:
+            log("re-executed the recorded schedule on the current tree")
+    if not reexec:
+        log("validating the recorded trace (set VERIF_REPLAY_RECORDED=1 to force this for engine-H artefacts)")
+        with open(out, "w") as f:
+            for e in rp["trace"]:
+                f.write(json.dumps(e, separators=(",", ":")) + "\n")
     vb = vlib.validate_batch("Trace_ExitWait", "Trace_ExitWait.cfg", out, "replay_" + pid)
     if vb["violations"]:
         log("recorded trace is rejected by the specification at: %s" % (vb["violations"][0].get("lenient_event") or vb["violations"][0].get("strict_event")))
         log("VIOLATION property=%s replay=%s" % (pid, path))
         return 1
-    log("recorded trace accepted")
+    log("trace accepted by the specification")
     return 0
